@@ -190,7 +190,8 @@ pub fn run_sb_check(id: &str, tier: &str, seed: u64) -> i32 {
     let (mut acc, runs): (Acc, u64) = match id {
         "C07" | "C18" => {
             // most positions at D = 2 (cheap, exhaustive), some at D = 3 (D = 4 in thorough: null move active)
-            let (n2, n3, n4) = if quick { (240, 60, 0) } else { (8_000, 2_000, 200) };
+            // a few positions at D = 4 even in the quick tier: null-move pruning (remaining depth >= 3) only exists from iteration 4 on
+            let (n2, n3, n4) = if quick { (240, 60, 8) } else { (8_000, 2_000, 200) };
             let (c07, c18) = (id == "C07", id == "C18");
             let mut a = report::par_acc(n2, |r| sb_checks::run_c07_c18(seed, r, &format!("{}-d2", id), c07, c18, 2, 1500));
             a.merge(report::par_acc(n3, |r| sb_checks::run_c07_c18(seed, r, &format!("{}-d3", id), c07, c18, 3, 1500)));
